@@ -14,6 +14,7 @@ namespace world {
 namespace {
 struct Cg {
   std::vector<std::string> extraProcLines;
+  int pidsMode = 0;  // 0 live count, 1 pids.current always reads 0 (racy / stale view), 2 no pids.current (no pids controller)
 };
 std::map<std::string, Cg> g_cgs;  // existing cgroups by rel ("" = root); std::map => parents first
 std::map<int, Proc> g_procs;
@@ -160,6 +161,7 @@ void addProc(int pid, const std::string& rel, int outcome, int linger) {
   g_everListed[pid] = rel;
 }
 void rawProcsLine(const std::string& rel, const std::string& line) { g_cgs[rel].extraProcLines.push_back(line); }
+void setPidsMode(const std::string& rel, int mode) { g_cgs[rel].pidsMode = mode; }
 
 std::vector<int> pidsIn(const std::string& rel, bool recursive) {
   std::vector<int> r;
@@ -194,7 +196,10 @@ void syncProcs() {
     std::string frozen = ev.find("frozen 1") != std::string::npos ? "1" : "0";
     if (ev.find("populated") != std::string::npos || ev.empty())
       vb::rawWrite(d + "/cgroup.events", std::string("populated ") + (sub ? "1" : "0") + "\nfrozen " + frozen + "\n");
-    if (vb::rawExists(d + "/pids.current")) vb::rawWrite(d + "/pids.current", std::to_string(sub) + "\n");
+    if (kv.second.pidsMode == 2)
+      vb::rawRmrf(d + "/pids.current");
+    else if (vb::rawExists(d + "/pids.current"))
+      vb::rawWrite(d + "/pids.current", std::to_string(kv.second.pidsMode == 1 ? 0 : sub) + "\n");
   }
 }
 
